@@ -95,6 +95,9 @@ Run ==
 \* hook events between begin and end are consumed once the machine has finished
 GuardEnter(e) ==
   /\ st # Idle /\ st.status # "run" /\ e.ev = "guard_enter"
+  \* LIMIT_SOFTFORK: at most 20 guards are ever open (depth counts the guard just entered)
+  /\ IF "LIMIT_SOFTFORK" \in st.flags /\ e.depth > 20
+       THEN Report("guard:depth", [case |-> e.case, variant |-> e.variant], e) ELSE TRUE
   /\ gst' = Append(gst, e)
   /\ l' = l + 1
   /\ UNCHANGED << st, grp, cnt >>
